@@ -132,9 +132,12 @@ def inline_helpers(d):
     by_did = {f["did"]: f for f in d["fns"]}
     cand = {}
     for f in d["fns"]:
-        if f["id"] in known or f.get("k") == "Closure" or f.get("eff_pub") or f.get("impl_trait") is not None \
-                or f.get("in_trait") is not None or not f.get("mir"):
+        if f["id"] in known or f.get("k") == "Closure" or f.get("eff_pub") or f.get("impl_trait") is not None or not f.get("mir"):
             continue
+        if f.get("in_trait") is not None:
+            # a new provided method of a crate-private trait is a helper like any other, unless some impl overrides it
+            if any(g.get("impl_trait") == f["in_trait"] and g.get("name") == f.get("name") for g in d["fns"]):
+                continue
         if len(f["mir"]["blocks"]) > MAX_CALLEE_BLOCKS:
             continue
         # not (directly) recursive
